@@ -63,6 +63,16 @@ int verif_thrown;
 #define VERIF_STDM_fmax(a, b) VERIF_STDM2(fmax, a, b)
 #define VERIF_STDM_fmod(a, b) VERIF_STDM2(fmod, a, b)
 #define VERIF_STDM_copysign(a, b) VERIF_STDM2(copysign, a, b)
+/* R16: libstdc++ algorithms on contiguous ranges of std::size_t (ASSUMED contracts of <numeric>/<algorithm>):
+ * std::accumulate(b, e, init, std::multiplies<std::size_t>()): T acc = init; for each x: acc = (T)((size_t)acc * x)
+ *   -- T is the TYPE OF init, as in the standard ([accumulate]);
+ * *std::max_element(b, e): a greatest element of a non-empty range */
+#define VERIF_ACCUMULATE_MUL(b, e, init) \
+  ({ __typeof__(init) verif_acc_ = (init); for (const size_t *verif_it_ = (b); verif_it_ != (e); ++verif_it_) verif_acc_ = (__typeof__(init))((size_t)verif_acc_ * *verif_it_); verif_acc_; })
+#define VERIF_MAX_ELEMENT(b, e) \
+  ({ const size_t *verif_b_ = (b); size_t verif_m_ = *verif_b_; for (const size_t *verif_it_ = verif_b_ + 1; verif_it_ < (e); ++verif_it_) if (verif_m_ < *verif_it_) verif_m_ = *verif_it_; verif_m_; })
+#define VERIF_ARRAY_END(x) ((x).m_data + sizeof((x).m_data) / sizeof((x).m_data[0]))
+
 /* std::min / std::max / std::clamp on values of one type [alg.min.max], [alg.clamp] */
 #define VERIF_STD_min(a, b) ((b) < (a) ? (b) : (a))
 #define VERIF_STD_max(a, b) ((a) < (b) ? (b) : (a))
